@@ -7,6 +7,7 @@ from sx import spec as SP, obs as O, term as T
 from . import common as C
 
 ID = 'C15'
+AGEABLE = True        # a quarter of the configurations build their operands as objects with a past (props/common.py)
 ENCODED = ['functions.sum', 'functions.cumsum', 'functions.prod', 'functions.cumprod', 'functions.dot', 'functions.trace', 'functions.fxp_max',
            'functions.fxp_min', 'functions.sort', 'functions.clip', 'functions.transpose', 'functions.diagonal', 'functions._function_over_one_var',
            'functions._function_over_two_vars', 'Fxp.__array_function__', 'Fxp._set_array_output_type', 'Fxp.sum', 'Fxp.cumsum', 'Fxp.prod',
